@@ -66,6 +66,16 @@ D = {
  "C16-c": ("genFilename splits the base name at the first dot", "a source file with an extra dot in its name (stages.v2.go), default output name"),
  "C17-c": ("compile.go: duplicate providers collected in a map; dependency slice rebuilt by map iteration", "a task consuming two values of one provider and a value of another"),
  "C20-c": ("modifier: root arguments keyed by modifier id; the template ranges over the map (sorted keys)", "modifier mode; options on lines / columns with different digit counts"),
+ "C02-d": ("compile.go: DependsOn skips predicate sentinels by `typ.(*predicateOutput)`, an alias of *types.Struct", "a flow value of an unnamed struct type consumed by another task; consumer starts before the provider returns"),
+ "C04-d": ("flow and parallel task templates: the deferred recover returns early when ctx.Err() != nil", "a task panics after the directive's context was cancelled while it was running"),
+ "C10-d": ("parallel/map.go.tmpl: the per-entry closure loses its named result; recover assigns the outer err", "a Map element function panics; a MapEnd hook is attached"),
+ "C13-d": ("gen.go: vN / pN numbering keyed by types.TypeString", "a value crosses a task boundary with an identical type spelled differently (any / interface{}, byte / uint8)"),
+ "C14-d": ("compile_parallel.go: passableAs also accepts types whose underlying types are assignable", "Slice/Map element and parameter of different named types with the same underlying type"),
+ "C15-d": ("prologue template: one tuple assignment instead of one statement per hoisted argument", "an argument that is a plain read of a variable which a later argument's call modifies"),
+ "C16-d": ("cmd/cff: -file=NAME without OUTPUT resolved relative to the working directory", "-file=NAME with cff started outside the package directory"),
+ "C17-d": ("gen.go: magic-token comments removed by a bufio.Scanner line walk (64 KiB limit, error unchecked)", "source-map mode; a source line of 64 KiB or more before a directive"),
+ "C18-d": ("templates: `ran` becomes a compare-and-swap claim between the TaskSkipped sweep and TaskDone", "directive returns while an instrumented task is still running"),
+ "C20-d": ("modifier flow_task template: dependency de-duplication with $prev := 0 drops task0.job", "modifier mode; consumer whose first provider is the file's first task; >= 2 workers"),
  "C20-a": ("modifier flow_task template: recover assigns a local err", "modifier mode; a task panics"),
  "C20-b": ("modifier mode guesses unnamed import names from the path", "modifier mode; unnamed import of .../debug/v2 (package debug) colliding with a generated import"),
 }
